@@ -394,6 +394,15 @@ class _Sim(object):
                     else:
                         target.mark_skipped()
                     ev["did"].append(["skip_element", act["how"]])
+            elif a == "hijack_stream":
+                # the step replaces sys.stdout / sys.stderr by an object of its own and does not put the
+                # old one back (only while behave's capture is in force for that stream)
+                cur = getattr(sys, act["stream"])
+                if cur is not (self.tty_out if act["stream"] == "stdout" else self.tty_err):
+                    import io as _io
+                    setattr(sys, act["stream"], _io.StringIO())
+                    ev["did"].append(["hijack_stream", act["stream"]])
+                    self.fire("step_replaces_" + act["stream"])
             elif a == "use_matcher":
                 from behave import use_step_matcher
                 use_step_matcher(act["name"])
